@@ -147,6 +147,18 @@ CHECKS = {
              "More/InputOffset/Token. Hooks: internal/decoder/stream.go read()/reset() (build tag verif).",
         technique="TLA+ window-protocol spec model-checked by TLC; scripted-reader schedule replay; TLC trace validation of hook events",
         engine="StreamDecoder", design="8/C09"),
+    "C19": dict(
+        level="model_checking",
+        text="FieldQuery.tla: queries are sets of selector paths into a struct tree that reaches a pointer, a value struct, a slice, a "
+             "map and an interface member; Project (reference) applies the same sub-query through all of them; the per-type cache of "
+             "filtered programs is a state machine (stored field tree, cache keyed by query text) for which TLC checks that every result "
+             "depends on its own query only and that the stored tree is never changed, and that the named deviation InPlaceFilter IS "
+             "found. TLC emits every query of up to 2/3 paths with its JSON spelling and the expected projection of two values; each is "
+             "replayed with MarshalContext / EncodeContext on fresh reflect-built types, rebuilt from its own QueryString, and used in "
+             "five-step histories for every interfering ordered pair of queries.",
+        note="trusted: TLC and FieldQuery.tla (unfiltered document cross-checked with encoding/json).",
+        technique="TLA+ projection reference + cache state machine model-checked by TLC (with a named deviation); TLC-emitted queries and expected projections replayed in cold-cache histories",
+        engine="FieldQuery", design="8/C19"),
     "C20": dict(
         level="model_checking",
         text="PathEval.tla contains the documented path grammar as a character-level recursive-descent parser, reference evaluation "
@@ -206,6 +218,8 @@ NA = {}
 HOOK_COMMITS = ["cb16685"]
 FIX_COMMITS = ["3ba2124", "35e540e", "5d9c0a9", "182cdbb", "c177d40", "4cc9b5c", "e04537c", "f4cd737", "4b54f48", "54b79dc"]
 ENGINES = [
+    dict(name="FieldQuery", path="specs/FieldQuery.tla", serves_properties=["C19"],
+         kind_free_text="TLA+ field-query projection reference and per-type filtered-program cache state machine; query/expectation export"),
     dict(name="PathEval", path="specs/PathEval.tla", serves_properties=["C20"],
          kind_free_text="TLA+ JSON Path grammar (character-level parser) and reference evaluation over document trees; exhaustive path enumeration and export"),
     dict(name="KeyLookup", path="specs/KeyLookup.tla", serves_properties=["C15"],
